@@ -16,7 +16,7 @@ print(f"""You are helping to evaluate a verification harness for the Python libr
 
 Set up your worktree first:
     git -C /repo worktree add --detach {wt} HEAD
-and work only inside {wt} (never edit /repo itself). Run Python as /venv/bin/python with PYTHONPATH={wt} so that `import setigen` resolves to your worktree (check with: cd /tmp && PYTHONPATH={wt} /venv/bin/python -W ignore -c "import setigen; print(setigen.__file__)").
+and work only inside {wt} (never edit /repo itself). Do NOT use `git stash` (the stash is shared by all worktrees of /repo and other agents work in parallel): keep each change as a patch file and revert with `git -C {wt} checkout -- setigen` / `git apply -R`. Run Python as /venv/bin/python with PYTHONPATH={wt} so that `import setigen` resolves to your worktree (check with: cd /tmp && PYTHONPATH={wt} /venv/bin/python -W ignore -c "import setigen; print(setigen.__file__)").
 
 The property (this is all you are given about it):
 
